@@ -4,6 +4,7 @@ package props
 // (DESIGN.md section 3.1).
 
 import (
+	"reflect"
 	"sort"
 
 	"pgregory.net/rapid"
@@ -18,6 +19,17 @@ type shape struct {
 
 var shapeKeys = []string{"a", "b", "c", "d", "k", "list", "sub", "items"}
 
+// oddKeys: legal keys with spellings that the library treats specially somewhere (reserved words of the encoders,
+// attribute/text prefixes, upper case, digits, hyphens, non-ASCII letters); used for about one field in twelve.
+var oddKeys = []string{"doc", "object", "element", "-id", "#text", "K", "k1", "ключ", "a-b", "_seq", "#seq", "-", "A", "a]", "Doc"}
+
+func drawFieldKey(t *rapid.T) string {
+	if rapid.IntRange(0, 11).Draw(t, "oddkey") == 0 {
+		return rapid.SampledFrom(oddKeys).Draw(t, "ok")
+	}
+	return rapid.SampledFrom(shapeKeys).Draw(t, "fk")
+}
+
 func genShape(t *rapid.T, depth int, inList, lil bool) *shape {
 	k := rapid.IntRange(0, 9).Draw(t, "shk")
 	if depth <= 0 {
@@ -30,7 +42,7 @@ func genShape(t *rapid.T, depth int, inList, lil bool) *shape {
 		s := &shape{kind: 1, fields: map[string]*shape{}}
 		n := rapid.IntRange(1, 4).Draw(t, "nf")
 		for i := 0; i < n; i++ {
-			s.fields[rapid.SampledFrom(shapeKeys).Draw(t, "fk")] = genShape(t, depth-1, false, lil)
+			s.fields[drawFieldKey(t)] = genShape(t, depth-1, false, lil)
 		}
 		return s
 	default:
@@ -42,7 +54,7 @@ func genRootShape(t *rapid.T, lil bool) *shape {
 	s := &shape{kind: 1, fields: map[string]*shape{}}
 	n := rapid.IntRange(2, 4).Draw(t, "nroot")
 	for i := 0; i < n; i++ {
-		s.fields[rapid.SampledFrom(shapeKeys).Draw(t, "fk")] = genShape(t, 4, false, lil)
+		s.fields[drawFieldKey(t)] = genShape(t, 4, false, lil)
 	}
 	return s
 }
@@ -405,4 +417,86 @@ func boostFilter(t *rapid.T) (map[string]interface{}, []Step, string, []Cond) {
 		cs = append(cs, c)
 	}
 	return root, []Step{{k1, -1}}, k1, cs
+}
+
+// ---- shared sub-structure: one container object reachable through two paths of the same Map ----
+// A decoded Map is a tree, but a Map built by hand (or by moving values around with the library's own setters)
+// may hold the same map or list object twice. Pure queries must treat it by value.
+
+type AliasSpec struct {
+	Src int    `json:"src"` // index of the container (DFS order) that gets a second parent
+	Dst int    `json:"dst"` // index of the map that receives it
+	Key string `json:"key"`
+}
+
+func listContainers(v interface{}, out *[]interface{}) {
+	switch x := v.(type) {
+	case map[string]interface{}:
+		*out = append(*out, x)
+		for _, k := range sortedKeys(x) {
+			listContainers(x[k], out)
+		}
+	case []interface{}:
+		*out = append(*out, x)
+		for _, vv := range x {
+			listContainers(vv, out)
+		}
+	}
+}
+
+func sameContainer(a, b interface{}) bool {
+	switch x := a.(type) {
+	case map[string]interface{}:
+		y, ok := b.(map[string]interface{})
+		return ok && reflect.ValueOf(x).Pointer() == reflect.ValueOf(y).Pointer()
+	case []interface{}:
+		y, ok := b.([]interface{})
+		return ok && len(x) > 0 && len(y) > 0 && &x[0] == &y[0]
+	}
+	return false
+}
+
+func subtreeHas(v, target interface{}) bool {
+	if sameContainer(v, target) {
+		return true
+	}
+	switch x := v.(type) {
+	case map[string]interface{}:
+		for _, vv := range x {
+			if subtreeHas(vv, target) {
+				return true
+			}
+		}
+	case []interface{}:
+		for _, vv := range x {
+			if subtreeHas(vv, target) {
+				return true
+			}
+		}
+	}
+	return false
+}
+
+// applyAlias inserts container #Src under dst[Key]: the very same object (share) or a deep copy (by value).
+// It reports false when the spec does not apply (no second container, destination inside the source, ...).
+func applyAlias(root map[string]interface{}, a AliasSpec, share bool) bool {
+	var cs []interface{}
+	listContainers(root, &cs)
+	if len(cs) < 2 || a.Src < 0 || a.Dst < 0 {
+		return false
+	}
+	src := cs[1+a.Src%(len(cs)-1)] // never the root itself
+	dst, ok := cs[a.Dst%len(cs)].(map[string]interface{})
+	if !ok || subtreeHas(src, dst) {
+		return false
+	}
+	if l, isList := src.([]interface{}); isList && len(l) == 0 {
+		return false
+	}
+	if share {
+		dst[a.Key] = src
+	} else {
+		dst[a.Key] = deepCopy(src)
+	}
+	return true
 }
